@@ -102,19 +102,34 @@ def correspond(ctx):
 
 def search(ctx, strength):
     have = getattr(ctx, "search_result", None)
+    carried = []
     if have is not None and (have[0] == strength or have[0] == "thorough"):
         res = have[1]
     else:
-        # escalated search after a broken tie/proof in the quick tier: bounded (thorough tier: unbounded)
-        r = ctx.run_impl("c03_impl.py", {"mode": "search", "strength": strength,
-                                         "budget": 1e9 if ctx.tier == "thorough" else 420}, timeout=5400)
-        if r is None:
-            return
-        res = r["search"]
+        if have is not None:
+            # escalation after a broken tie/proof: keep what the quick search of the same run already found
+            carried = list(have[1]["failures"])
+            ctx.search_info["notes"].append({"quick_search_of_this_run": {"evaluations": have[1]["evaluations"],
+                                                                         "failures": len(carried)}})
+        if carried:
+            # the quick search already exhibits failing inputs: they are the replay, no need for the long search
+            res, carried = have[1], []
+            r = {"search": res}
+        else:
+            r = None
+        if r is not None:
+            pass
+        elif True:
+            # escalated search after a broken tie/proof in the quick tier: bounded (thorough tier: unbounded)
+            r = ctx.run_impl("c03_impl.py", {"mode": "search", "strength": strength,
+                                             "budget": 1e9 if ctx.tier == "thorough" else 420}, timeout=5400)
+            if r is None:
+                return
+            res = r["search"]
     ctx.search_info["evaluations"] = res["evaluations"]
     ctx.search_info["notes"].append({"operators_run": res["operators_run"], "worst_relative_error": res["worst"],
                                      "skipped": res["skipped"], "wall_s": res["wall"]})
-    for f in res["failures"]:
+    for f in carried + res["failures"]:
         ctx.failure(f["signature"], f["what"], f["data"])
 
 
